@@ -42,7 +42,7 @@ func (fr *Frame) step(st *State, instr ssa.Instruction, b *ssa.BasicBlock, edgeC
 		fr.setReg(in, ex.fieldAddr(st, p, in.X.Type(), in.Field))
 	case *ssa.Field:
 		x := fr.val(st, in.X)
-		fr.setReg(in, Val{T: ex.ctx.StructField(x.T, in.X.Type(), in.Field)})
+		fr.setReg(in, Val{T: ex.ghostTyped(ex.ctx.StructField(x.T, in.X.Type(), in.Field), in.Type())})
 	case *ssa.IndexAddr:
 		fr.setReg(in, fr.indexAddr(st, in))
 	case *ssa.Index:
@@ -129,7 +129,7 @@ func (fr *Frame) step(st *State, instr ssa.Instruction, b *ssa.BasicBlock, edgeC
 			ex.unsupported("store of non-term value")
 		}
 		l := ex.locFromPtr(a, in.Addr.Type())
-		if v.Clo != nil && ex.ghost == 0 {
+		if v.Clo != nil {
 			ex.w.cloByRef(ex, v)
 		}
 		ex.store(st, l, v.T)
@@ -334,6 +334,7 @@ func (fr *Frame) unop(st *State, in *ssa.UnOp) Val {
 		fr.guardCheck(st, x, false, in.Pos())
 		l := ex.locFromPtr(x, in.X.Type())
 		v := ex.load(st, l)
+		v = ex.ghostTyped(v, in.Type())
 		r := Val{T: v}
 		fr.loadFacts(st, v, in.Type())
 		if _, ok := in.Type().Underlying().(*types.Signature); ok {
